@@ -76,9 +76,18 @@ func (txn *writeTxnState) indexReadTxn(meta TableMeta, indexPos int) (tableIndex
 	return txn.tableEntries[meta.tablePos()].indexes[indexPos], nil
 }
 
+// holds reports whether the table is part of this transaction. A table that was
+// registered after WriteTxn() is not, and is thus not locked for writing by it.
+func (txn *writeTxnState) holds(meta TableMeta) bool {
+	return meta.tablePos() < len(txn.tableEntries)
+}
+
 // indexWriteTxn returns a transaction to read/write to a specific index.
 // The created transaction is memoized and used for subsequent reads and/or writes.
 func (txn *writeTxnState) indexWriteTxn(meta TableMeta, indexPos int) (tableIndexTxn, error) {
+	if !txn.holds(meta) {
+		return nil, tableError(meta.Name(), ErrTableNotLockedForWriting)
+	}
 	table := txn.tableEntries[meta.tablePos()]
 	if !table.locked {
 		return nil, tableError(meta.Name(), ErrTableNotLockedForWriting)
@@ -137,6 +146,9 @@ func (txn *writeTxnState) modify(meta TableMeta, guard revisionGuard, newData an
 
 	// Look up table and allocate a new revision.
 	tableName := meta.Name()
+	if !txn.holds(meta) {
+		return object{}, false, nil, tableError(tableName, ErrTableNotLockedForWriting)
+	}
 	table := txn.tableEntries[meta.tablePos()]
 	if !table.locked {
 		return object{}, false, nil, tableError(tableName, ErrTableNotLockedForWriting)
@@ -232,6 +244,9 @@ func (txn *writeTxnState) addDeleteTracker(meta TableMeta, trackerName string, d
 	if txn == nil {
 		return ErrTransactionClosed
 	}
+	if !txn.holds(meta) {
+		return tableError(meta.Name(), ErrTableNotLockedForWriting)
+	}
 	table := txn.tableEntries[meta.tablePos()]
 	if !table.locked {
 		return tableError(meta.Name(), ErrTableNotLockedForWriting)
@@ -255,6 +270,9 @@ func (txn *writeTxnState) delete(meta TableMeta, guard revisionGuard, data any) 
 
 	// Look up table.
 	tableName := meta.Name()
+	if !txn.holds(meta) {
+		return object{}, false, tableError(tableName, ErrTableNotLockedForWriting)
+	}
 	table := txn.tableEntries[meta.tablePos()]
 	if !table.locked {
 		return object{}, false, tableError(tableName, ErrTableNotLockedForWriting)
